@@ -701,3 +701,55 @@ TWINS["C02"] = [
     TW("disc-gamma-times-chain-swapped",
        (TP, "np.eye(markov_process.shape[0]) - mdp.discount_rate*markov_process", "np.eye(markov_process.shape[0]) - markov_process*mdp.discount_rate")),
 ]
+
+# ----------------------------------------------------------------------------------- C06
+TM = C + "mdp/tabularmdp.py"
+MDPB = C + "mdp/mdp.py"
+QM = C + "mdp/quickmdp.py"
+MUTANTS["C06"] = [
+    M("revert-F4-transition-zero-prob", ["ZERO-1"],
+      (TM, "                    if nsp == 0.:\n                        continue\n                    nsi = self.state_list.index(ns)\n                    tf[si, ai, nsi] = nsp",
+       "                    nsi = self.state_list.index(ns)\n                    tf[si, ai, nsi] = nsp")),
+    M("revert-F4-reward-zero-prob", ["ZERO-1"],
+      (TM, "                    if p == 0.:\n                        continue\n                    nsi = self.state_list.index(ns)\n                    rf[si, ai, nsi]",
+       "                    nsi = self.state_list.index(ns)\n                    if p == 0.:\n                        continue\n                    rf[si, ai, nsi]")),
+    M("transition-store-transposed", ["TEN-4"],
+      (TM, "tf[si, ai, nsi] = nsp", "tf[nsi, ai, si] = nsp")),
+    M("reward-of-wrong-triple", ["TEN-4", "ARG"],
+      (TM, "rf[si, ai, nsi] = self.reward(s, a, ns)", "rf[si, ai, nsi] = self.reward(ns, a, s)")),
+    M("action-index-from-state-list", ["TEN-4"],
+      (TM, "                ai = self.action_list.index(a)\n                for ns, nsp", "                ai = self.state_list.index(a)\n                for ns, nsp")),
+    M("alloc-actions-first", ["TEN-4"],
+      (TM, "        am = np.zeros((\n            len(self.state_list),\n            len(self.action_list), \n        ))", "        am = np.zeros((\n            len(self.action_list),\n            len(self.state_list), \n        ))")),
+    M("reachable-iterates-support", ["REACH-1"],
+      (MDPB, "                for ns, prob in self.next_state_dist(s, a).items():\n                    if prob == 0:\n                        continue\n", "                for ns in self.next_state_dist(s, a).support:\n")),
+    M("reachable-absorbing-expanded", ["REACH-2"],
+      (MDPB, "if ns not in visited and not self.is_absorbing(ns):", "if ns not in visited:")),
+    M("reachable-initial-all", ["REACH-3"],
+      (MDPB, "S0 = {e for e, p in self.initial_state_dist().items() if p > 0}", "S0 = {e for e, p in self.initial_state_dist().items()}")),
+    M("initial-vec-wrong-order", ["VEC-1"],
+      (TM, "s0 = np.array([s0.prob(s) for s in self.state_list])", "s0 = np.array([s0.prob(s) for s in self.reachable_states()])")),
+    M("sarm-contract-source", ["VEC-1"],
+      (TM, 'sa_rf = np.einsum("san,san->sa", rf, tf)', 'sa_rf = np.einsum("san,san->na", rf, tf)')),
+    M("from-matrices-reward-axes", ["FM-1"],
+      (TM, "return reward_matrix[ss_i[s], aa_i[a], ss_i[ns]]", "return reward_matrix[ss_i[ns], aa_i[a], ss_i[s]]")),
+    M("from-matrices-action-map", ["FM-1"],
+      (TM, "probs = transition_matrix[ss_i[s], aa_i[a], :]", "probs = transition_matrix[ss_i[s], ss_i[a], :]")),
+    M("from-matrices-discount-dropped", ["FM-1"],
+      (TM, "            is_absorbing=is_absorbing,\n            discount_rate=discount_rate\n", "            is_absorbing=is_absorbing,\n")),
+    M("from-matrices-actions-zip-states", ["FM-1"],
+      (TM, "available_actions = [a for a, aa in zip(action_list, available_actions) if aa]", "available_actions = [a for a, aa in zip(state_list, available_actions) if aa]")),
+    M("quick-reward-args-reordered", ["QK-1"],
+      (QM, "        return self._reward(s, a, ns)", "        return self._reward(s, ns, a)")),
+    M("quick-discount-not-stored", ["QK-1"],
+      (QM, "        self.discount_rate = discount_rate\n", "")),
+]
+TWINS["C06"] = [
+    TW("transition-guard-positive-form",
+       (TM, "                    if nsp == 0.:\n                        continue\n                    nsi = self.state_list.index(ns)\n                    tf[si, ai, nsi] = nsp",
+        "                    if nsp != 0:\n                        nsi = self.state_list.index(ns)\n                        tf[si, ai, nsi] = nsp")),
+    TW("rename-index-vars",
+       (TM, "                ai = self.action_list.index(a)\n                am[si, ai] = 1", "                col = self.action_list.index(a)\n                am[si, col] = 1")),
+    TW("reachable-skip-le",
+       (MDPB, "                    if prob == 0:\n                        continue", "                    if prob <= 0:\n                        continue")),
+]
